@@ -90,11 +90,34 @@ Fixpoint t4a_b (cb pend : bool) (ins : list input) (bs : list obs) : bool :=
   | _, _ => false
   end.
 
-(* bit 1: T2 fails, 2: T3, 4: T5 invariant, 8: T1, 16: T4 withholding; 0 = all pass *)
+(* Audio.state and old_state/new_state against the last REACHED state (theorems
+   C06_T1_state_is_last_reached, C06_T1_reports_match_last_reached): after every step
+   Audio.state is the state reached by the last completed playbin transition - also when the
+   report itself is suppressed because a track change is requested - and every state_changed
+   carries old_state = the state reached before the message, new_state = the one reached
+   with it *)
+Definition tst_event_b (before after : pstate) (e : oevent) : bool :=
+  match e with
+  | OState o n _ => pstate_eqb o before && pstate_eqb n after
+  | _ => true
+  end.
+
+Fixpoint tst_b (reached : pstate) (ins : list input) (bs : list obs) : bool :=
+  match ins, bs with
+  | [], [] => true
+  | i :: ins', b :: bs' =>
+      let r' := match reached_by i with Some s => s | None => reached end in
+      pstate_eqb (b_st b) r' && forallb (tst_event_b reached r') (b_evs b) && tst_b r' ins' bs'
+  | _, _ => false
+  end.
+
+(* bit 1: T2 fails, 2: T3, 4: T5 invariant, 8: T1, 16: T4 withholding, 32: state = last
+   reached; 0 = all pass *)
 Definition monitor_code (c : list input * list obs) : Z :=
   let '(ins, bs) := c in
   (if t2_b bs then 0 else 1) + (if t3_b ins bs then 0 else 2) + (if t5_b NULL None ins bs then 0 else 4)
-  + (if t1_b NULL ins bs then 0 else 8) + (if t4a_b false false ins bs then 0 else 16).
+  + (if t1_b NULL ins bs then 0 else 8) + (if t4a_b false false ins bs then 0 else 16)
+  + (if tst_b Stopped ins bs then 0 else 32).
 
 (* the model's own observation of a run *)
 Definition model_obs_step (w : world) (i : input) : obs :=
